@@ -127,7 +127,7 @@ def make_decor(sc, rng):
         if (t["cond"] and tuple(t["cond"][-1][0]) in sole and rng.random() < 0.5
                 and (not t["cond"][-1][1] or all(b_ for _n, b_ in t["cond"]))):
             cbs.append([j, "cond" if t["cond"][-1][1] else "unless", list(t["cond"][-1][0])])
-    return {"cbs": cbs, "event": dev}
+    return {"cbs": cbs, "event": dev, "event_alias": bool(dev) and rng.random() < 0.5}
 
 
 def inject_decor_event(sc, rng):
@@ -188,6 +188,18 @@ def add_any(sc, rng):
     for s in range(sc["n"]):
         if s not in sc["finals"]:
             sc["trans"].append(dict(copy.deepcopy(kw), s=s, t=x, ev=[e]))
+    if rng.random() < 0.4:
+        # a second from_.any() part under the same event (another target, its own arguments)
+        y = rng.randrange(sc["n"])
+        kw2 = {"int": False, "val": [], "cond": [], "before": [], "on": [], "after": []}
+        if donors and rng.random() < 0.6:
+            d2 = rng.choice(donors)
+            kw2 = {"int": False, "val": list(d2["val"]), "cond": sorted([[nm, b] for nm, b in d2["cond"]], key=lambda nb: not nb[1]),
+                   "before": list(d2["before"]), "on": list(d2["on"]), "after": list(d2["after"])}
+        sc["any"]["tgt2"] = y
+        for s in range(sc["n"]):
+            if s not in sc["finals"]:
+                sc["trans"].append(dict(copy.deepcopy(kw2), s=s, t=y, ev=[e]))
     return sc
 
 
@@ -196,8 +208,13 @@ def render_any(sc, inherit=False):
     with the whole body in a base class the machine class inherits from"""
     n_any = sum(1 for s in range(sc["n"]) if s not in sc["finals"])
     v = copy.deepcopy(sc)
-    v["trans"] = sc["trans"][:-n_any]
-    v["any_render"] = copy.deepcopy(sc["trans"][-1])
+    if sc["any"].get("tgt2") is not None:
+        v["trans"] = sc["trans"][:-2 * n_any]
+        v["any_render"] = copy.deepcopy(sc["trans"][-n_any - 1])
+        v["any_render2"] = copy.deepcopy(sc["trans"][-1])
+    else:
+        v["trans"] = sc["trans"][:-n_any]
+        v["any_render"] = copy.deepcopy(sc["trans"][-1])
     v["inherit"] = inherit
     return eng.render_source(v)
 
@@ -297,7 +314,8 @@ def run_impl(sc):
                 ns2 = {}
                 exec(compile(eng.render_source(vv), "<c15v>", "exec"), ns2)  # noqa: S102
                 dev = (v.get("decor") or {}).get("event")
-                sv = structure(ns2["M"], rename=({f"_{eng.evname(dev[0])}_": eng.cbname(dev[1])} if dev else None))
+                sv = structure(ns2["M"], rename=({f"_{eng.evname(dev[0])}_": eng.cbname(dev[1]),
+                                                  f"_impl_{eng.evname(dev[0])}_": eng.cbname(dev[1])} if dev else None))
                 ov = eng.run_impl(vv)
             except Exception as e:  # noqa: BLE001
                 bad.append([v, f"{type(e).__name__}: {e}"])
